@@ -15,6 +15,7 @@ def main():
     real_out = os.dup(1)
     devnull = os.open(os.devnull, os.O_WRONLY)
     os.dup2(devnull, 1)
+    sys.path.insert(0, os.environ.get("VERIF_REPO", "/repo"))   # same tree as the parent check
     from simkit.choices import Choices, mix
     from simkit.runner import digest
     from checks import c06
